@@ -183,6 +183,9 @@ def c10(prog, obs, impl):
             cs = [obj] if isinstance(obj, Container) else list(obj.wells.flatten())[:6]
             ds = containers_of(d)
             for cobj, c in zip(cs, ds):
+                got = {impl.bykey.get((s.name, s.specific_activity, s.mol_weight, s.density), impl.byname.get(s.name, -1)) for s in cobj.get_substances()}
+                if got != set(c['cont']):
+                    fails.append((i, f"get_substances() reports substances {sorted(got)}, the contents hold {sorted(c['cont'])}"))
                 for unit, p in (('uL', 0), ('mL', 3), ('L', 3)):
                     got = cobj.get_volume(unit)
                     exp = c['vol'] * PF['u'][1] / PF[unit[:-1]][1]
